@@ -11,7 +11,13 @@ import PlinioVerif.Model.SuperNet
 
 (`plain`: no choice node left; `sim`: every surviving node has the value it has in the hard
 evaluation of the SuperNet, for the structural-hash leaf semantics; `out`: that hash of the output)
-or `err hyp=<0|1>` when the surgery raises.  `hyp`: the traced graph satisfies the hypotheses of the
+or `err hyp=<0|1>` when the surgery raises.
+
+`history st=[<combiner>|<gumbel>|<hard>|<arg-max of theta or ?>|q|q|…,…] ops=[a|<combiner>|q|…,h|<0|1>,t,f|<train>,…]`
+runs the op sequence (alpha written / hard switched / temperature updated / forward pass) on the
+combiner states and answers `win=[<combiner>|k,…] sampled=[<combiner>|k or ?,…] hard=[…]`: the branch
+`export()` selects afterwards (arg-max of the *current* alpha), the position of the largest entry
+of `theta_alpha` (`?` after Gumbel noise) and the hard flags.  `hyp`: the traced graph satisfies the hypotheses of the
 C03 theorems (`WF`, `IOSane`, `Discipline`, the last node is the `output`). -/
 open PlinioVerif PlinioVerif.Proto PlinioVerif.SuperNet
 
@@ -63,6 +69,26 @@ def hashEnv : Env Nat where
 def combiners (g : Graph) : List String :=
   (g.filterMap fun nd => match nd.op with | .combine c => some c | _ => none).eraseDups
 
+/-- `<combiner>|<gumbel>|<hard>|<sampled or ?>|q|q|…` -/
+def parseCombSt? (t : String) : Option (String × CombSt) :=
+  match t.splitOn "|" with
+  | c :: g :: h :: smp :: qs => do
+    let gb ← parseBool? g
+    let hb ← parseBool? h
+    let a ← qs.mapM parseRat?
+    let sm ← if smp = "?" then some none else smp.toNat?.map some
+    pure (c, ⟨a, sm, hb, gb⟩)
+  | _ => none
+
+/-- `a|<combiner>|q|…` (alpha written), `h|<0|1>` (hard), `t` (temperature), `f|<train>` (forward) -/
+def parseHistOp? (t : String) : Option HistOp :=
+  match t.splitOn "|" with
+  | "a" :: c :: qs => (qs.mapM parseRat?).map fun a => HistOp.setAlpha c a
+  | ["h", b] => (parseBool? b).map HistOp.setHard
+  | ["t"] => some HistOp.setTemp
+  | ["f", b] => (parseBool? b).map HistOp.forward
+  | _ => none
+
 def handle (line : String) : String :=
   let toks := tokens line
   match toks.head? with
@@ -85,6 +111,18 @@ def handle (line : String) : String :=
         let sim := (List.range g'.length).all fun i => !(g'.nd i).live || v.getD i 0 == v'.getD i 0
         s!"ok win={ws} nodes={ns} mods={ms} plain={showBool plain} sim={showBool sim} out={netOut hashEnv win g} {hyp}"
     | _, _, _ => "bad-request"
+  | some "history" =>
+    match (field? toks "st").bind (parseList? parseCombSt?),
+          (field? toks "ops").bind (parseList? parseHistOp?) with
+    | some st, some ops =>
+      let st' := runHist st ops
+      let w := exportWinners st'
+      let ws := showList (fun p => s!"{p.1}|{w p.1}") st'
+      let ss := showList (fun (p : String × CombSt) =>
+        match p.2.sampled with | some k => s!"{p.1}|{k}" | none => s!"{p.1}|?") st'
+      let hs := showList (fun (p : String × CombSt) => s!"{p.1}|{showBool p.2.hard}") st'
+      s!"win={ws} sampled={ss} hard={hs}"
+    | _, _ => "bad-request"
   | _ => "bad-request"
 
 def main : IO Unit := runDriver handle
